@@ -349,6 +349,7 @@ func c04E2E(env *core.Env, res *core.Result) {
 		r := env.Rand(i)
 		sc := c02Case(env.CaseSeed(i), modes[k%len(modes)])
 		sc.Prof.DupRequests = 0
+		sc.Prof.DeleteNewest = 3
 		sc.Opt.Faults = &sim.RandomFaults{Pct: 6, Kinds: []sim.FaultKind{sim.FCrashBefore, sim.FCrashAfter, sim.F500Before}, R: rand.New(rand.NewSource(sc.Opt.Seed ^ 0x4)), Until: 400, Crashes: 3}
 		sc.Note = "crash/restart end to end"
 		_ = r
